@@ -1568,7 +1568,7 @@ func runC10(c *Ctx) {
 	if thorough {
 		c.SetBudget(30 * time.Minute)
 	} else {
-		c.SetBudget(150 * time.Second)
+		c.SetBudget(240 * time.Second)
 	}
 	c.Rule = "for every enumerated (pattern bytes, option set): Compile returns a Regexp or a *syntax.Error and MustCompile panics exactly then, with a string carrying that error; for every compiled Regexp x every input x every call of the menu (match/find/find-next chains/find-all/StartingAt/Replace/ReplaceFunc/Split/getters/match accessors/Escape/Unescape/UnmarshalText/all adapter methods, argument menus incl. out-of-range values): the call returns normally (per-call recover), stays inside the step budget of 20M steps per scan on inputs of <= 3 runes, and a non-nil error is a match timeout, ErrBacktrackingStackLimit, one of the three documented argument errors ('startAt must be less than the length of the input string', 'startAt must align to the start of a valid rune in the input string', 'count too small') raised for an argument that really is out of range, or (Replace, Unescape, Compile-like calls) a *syntax.Error; the adapter panics only with one of those errors. Non-trivial = calls that found a match, changed the text or returned a permitted error."
 	c.Assume("a *syntax.Error returned by Replace for a malformed replacement string (e.g. '$99999999999': capture group number out of range) is counted as a documented argument error")
